@@ -218,6 +218,18 @@ def _np_array(ex, st, args, kw, node):
             for j, v in enumerate(vals):
                 a = z3.Store(a, j, v)
             return ex.alloc_arr(st, (z3.IntVal(len(vals)),), a, elem, "fresh", tag="array")
+        if items and all(isinstance(v, LRef) and st.heap[v.sid].items and all(is_z3(lit(y)) for y in st.heap[v.sid].items) for v in items) \
+                and len({len(st.heap[v.sid].items) for v in items}) == 1:
+            # a list of equally long lists of numbers: a 2-D array, row by row
+            rows = None
+            ncol = len(st.heap[items[0].sid].items)
+            for j, v in enumerate(items):
+                row = z3.K(I, z3.RealVal(0))
+                for c, y in enumerate(st.heap[v.sid].items):
+                    row = z3.Store(row, c, real(y))
+                rows = z3.K(I, row) if rows is None else rows
+                rows = z3.Store(rows, j, row)
+            return ex.alloc_arr(st, (z3.IntVal(len(items)), z3.IntVal(ncol)), rows, "real", "fresh", tag="array2")
         if items and all(isinstance(v, ARef) and ex.arr(st, v).rank == 1 and ex.arr(st, v).elem == "real" for v in items):
             # a list of equally long 1-D arrays: a 2-D array with one row per list entry (numpy raises on ragged input)
             ds = [ex.arr(st, v) for v in items]
@@ -709,6 +721,10 @@ def _str_split(ex, st, args, kw, node):
     return objects.new_symlist(ex, st, objects.STR_LIST, length=n, name="split")
 
 
+def _dict_copy(ex, st, args, kw, node):
+    return DictV(dict(args[0].items))
+
+
 def _dict_pop(ex, st, args, kw, node):
     d, k = args[0], args[1]
     if not isinstance(k, StrV) or k.s not in d.items:
@@ -723,7 +739,7 @@ def _str_join(ex, st, args, kw, node):
     return StrV("<joined>")
 
 
-DICT_METHODS = {"get": _dict_get, "keys": _dict_keys, "pop": _dict_pop}
+DICT_METHODS = {"get": _dict_get, "keys": _dict_keys, "pop": _dict_pop, "copy": _dict_copy}
 STR_METHODS = {"lower": _str_lower, "endswith": _str_endswith, "join": _str_join, "startswith": _str_startswith, "split": _str_split}
 
 # A-NAN: NaN is a distinguished real constant; only storing it and testing for it (isnan) are meaningful - a contract that lets it reach
